@@ -58,6 +58,10 @@ func (s *S3Proxy) getConfig(ctx context.Context, access, secret string) (aws.Con
 		// by default the SDK sends x-amz-checksum-mode: ENABLED with every GetObject
 		// and the x-amz-checksum-* headers of the answer went on to the client
 		config.WithResponseChecksumValidation(aws.ResponseChecksumValidationWhenRequired),
+		// nor add a CRC32 of its own to every upload: the request body is a stream that
+		// cannot be rewound, so against a plain http endpoint every PutObject/UploadPart
+		// failed ("unseekable stream is not supported without TLS and trailing checksum")
+		config.WithRequestChecksumCalculation(aws.RequestChecksumCalculationWhenRequired),
 	}
 
 	if s.disableChecksum {
